@@ -91,6 +91,23 @@ Definition pubs_between (b b' : broker) : list (nat * change) :=
   then combine (seq (S (top b)) (top b' - top b)) (skipn (top b) (b_log b'))
   else [].
 
+(* every broadcast of a list of writer ops, one op after the other, whatever its epoch: the
+   subscribe buffer of a client that already is in the hub receives them all (publications made
+   before a clear inside the window included) *)
+Fixpoint emitted (b : broker) (ws : list wop) : list (nat * change) :=
+  match ws with
+  | [] => []
+  | w :: t => pubs_between b (apply_w b w) ++ emitted (apply_w b w) t
+  end.
+
+(* what the subscribe buffer holds at the end of the two windows of a live transition *)
+Definition buffered_of (b : broker) (g1 g2 : list wop) : list (nat * change) :=
+  let b1 := apply_ws b g1 in
+  let b2 := apply_ws b1 g2 in
+  if Nat.eqb (b_epoch b1) (b_epoch b) && Nat.eqb (b_epoch b2) (b_epoch b1)
+  then pubs_between b b1 ++ pubs_between b1 b2      (* no clear inside the windows *)
+  else emitted b (g1 ++ g2).
+
 (* getState page: keys sorted ascending, strictly after the cursor, at most [limit];
    next cursor = last returned key when more remain *)
 Definition entries_from (K : nat) (b : broker) (from : nat) : list (key * nat * val) :=
@@ -209,7 +226,7 @@ Section Server.
         then (apply_ws b1 g2, s_none, mkL false 0 0, PErr EUnrecoverable)
         else
           let b2 := apply_ws b1 g2 in
-          let buffered := pubs_between b b1 ++ pubs_between b1 b2 in
+          let buffered := buffered_of b g1 g2 in
           let '(out, maxo, ok) := merge (map to_mpub pubs) (map to_mpub buffered) in
           if negb ok then (b2, s_none, mkL false 0 0, PErr EInsufficient)
           else
